@@ -208,9 +208,11 @@ func runC14(r *Run) {
 		// direct oracles (no model)
 		if err == nil {
 			got := map[string]string{}
+			all := map[string]bool{} // name=value pairs present (a name may be emitted twice)
 			for _, kv := range obs.List {
 				if len(kv.List) == 2 {
 					got[*kv.List[0].Atom] = *kv.List[1].Atom
+					all[*kv.List[0].Atom+"="+*kv.List[1].Atom] = true
 				}
 			}
 			for k := range got {
@@ -222,7 +224,7 @@ func runC14(r *Run) {
 			for _, a := range attrs {
 				if a.kind == "static" && strings.HasPrefix(a.key, "[") {
 					name := strings.Trim(a.key, "[]")
-					if v, ok := got[name]; !ok || v != a.val {
+					if v := got[name]; !all[name+"="+a.val] {
 						class := "other"
 						if strings.Contains(a.val, "{{") && strings.Contains(a.val, "}}") {
 							class = "bracket-value-with-mustache"
